@@ -9,9 +9,9 @@ for id in $(python3 -c "import json;print(' '.join(c['property_id'] for c in jso
   if [ $rc -ne 0 ]; then fail=1; grep -E "VIOLATION|KNOWN" work/runall.$id.log | head -5; fi
 done
 python3-vt - <<'PY'
-import json,jsonschema,glob
+import json,jsonschema,glob,os
 sch=json.load(open('/root/.vp/EVIDENCE.schema.json'))
-for f in sorted(glob.glob('/verif/evidence/*.json')):
+for f in sorted(glob.glob(os.path.join(os.getcwd(),'evidence','*.json'))):
     d=json.load(open(f))
     try:
         jsonschema.validate(d,sch)
@@ -20,7 +20,7 @@ for f in sorted(glob.glob('/verif/evidence/*.json')):
         print(f.split('/')[-1], 'valid', 'discharged==obligations' if ok else 'DISCHARGED!=OBLIGATIONS', d['wall_s'])
     except Exception as e:
         print(f, 'INVALID', str(e)[:200])
-jsonschema.validate(json.load(open('/verif/MANIFEST.json')), json.load(open('/root/.vp/MANIFEST.schema.json')))
+jsonschema.validate(json.load(open('MANIFEST.json')), json.load(open('/root/.vp/MANIFEST.schema.json')))
 print('manifest valid')
 PY
 exit $fail
